@@ -791,6 +791,19 @@ def prove_dihedral_blocks(S):
     S.guarded(FN + ' (type key of a dihedral, exclusion)', lambda: _dihedral_blocks(S, RU, FN))
 
 
+def _z3_consts(e):
+    out, todo, seen = [], [e], set()
+    while todo:
+        x = todo.pop()
+        if x.get_id() in seen:
+            continue
+        seen.add(x.get_id())
+        if z3.is_const(x) and x.decl().kind() == z3.Z3_OP_UNINTERPRETED:
+            out.append(x)
+        todo.extend(x.children())
+    return out
+
+
 def _one(fn, pred, what):
     hits = [n for n in _ast.walk(fn) if pred(n)]
     if len(hits) != 1:
@@ -961,6 +974,46 @@ def _dihedral_blocks(S, RU, FN):
               clause='attaches to each type the parameters of that sequence')
         S.add_canary(I3, FN + "[params]/canary#%d" % pi, [h for h in p.pc if not z3.is_quantifier(h)])
     S.add_interp_obligations(I3)
+
+    # -------- coefficient statement: the line of a type is formatted from that type's own parameters and its own key
+    co_st = _one(fn, lambda n: is_assign_to(n, 'atoms.dihedral_type_coeffs'), 'atoms.dihedral_type_coeffs = [fmt % (*p1, *p2) for p1, p2 in params]')
+    cv = co_st.value
+    if not (isinstance(cv, _ast.ListComp) and len(cv.generators) == 1 and not cv.generators[0].ifs and _ast.unparse(cv.generators[0].iter) == 'params'):
+        raise OutOfSubset("the coefficient lines are not one unfiltered comprehension over params (contract no longer applies)")
+    I4 = S.interp()
+    I4.allow_merge = False
+    models_py.install(I4)
+    pp = [z3.Const('par_style', StrS), z3.Real('par_k'), z3.Int('par_d'), z3.Int('par_n')]
+    kk = [z3.Const('ckey_t%d' % c, StrS) for c in range(4)] + [z3.Int('ckey_count')]
+    qq = [z3.Const('other_style', StrS), z3.Real('other_k'), z3.Int('other_d'), z3.Int('other_n')]
+    oo = [z3.Const('okey_t%d' % c, StrS) for c in range(4)] + [z3.Int('okey_count')]
+
+    def thunk4():
+        outs = []
+        for a, b in ((pp, kk), (qq, oo)):
+            env = {'__entry': (tuple(Sym(x) for x in a), tuple(Sym(x) for x in b))}
+            ctx = I4.block_ctx(RU, FN, env)
+            ctx.exec_block([_ast.fix_missing_locations(_ast.Assign(targets=[cv.generators[0].target], value=_ast.Name(id='__entry', ctx=_ast.Load()), lineno=0, col_offset=0))])
+            outs.append(ctx.eval(cv.elt))
+        return outs
+    paths4 = I4.explore(thunk4)
+    if not paths4:
+        raise OutOfSubset("no path through the coefficient statement")
+    for pi, p in enumerate(paths4):
+        if p.outcome != 'return':
+            raise OutOfSubset("the coefficient statement of assign_dihedral_types raises")
+        l1, l2 = p.value
+        if not (isinstance(l1, Sym) and isinstance(l2, Sym) and l1.e.sort() == StrS):
+            raise OutOfSubset("a coefficient line is not a formatted string")
+        same_in = z3.And(*[x == y for x, y in zip(pp + kk, qq + oo)])
+        # functional in its own entry: equal entries give equal lines; every one of the four parameters enters the line (the text after '#' is a comment: not required)
+        S.add(I4, FN + "/post/coefficient-line-is-a-function-of-the-types-own-parameters-and-key#%d" % pi, p.pc, z3.Implies(same_in, l1.e == l2.e),
+              clause='attaches to each type the parameters of that sequence')
+        used = {str(d_) for d_ in _z3_consts(l1.e)}
+        S.add(I4, FN + "/post/coefficient-line-states-all-four-parameters-of-the-type#%d" % pi, p.pc,
+              z3.BoolVal(all(str(x) in used for x in pp)), kind='frame', clause='attaches to each type the parameters of that sequence')
+        S.add_canary(I4, FN + "[coeffs]/canary#%d" % pi, [h for h in p.pc if not z3.is_quantifier(h)])
+    S.add_interp_obligations(I4)
 
     # -------- exclusion statement: applied through delete_if_all_in_set (proved above) exactly when the set can hold a dihedral
     I2 = S.interp()
